@@ -39,6 +39,10 @@ type session41 struct {
 	id    nfsv4.Sessionid4
 	seq   [2]uint32 // last sequence number used per slot
 	valid bool
+	// nocache: every SEQUENCE of this session is sent with
+	// sa_cachethis=false (world.uncached41 at the time the session was
+	// created).
+	nocache bool
 }
 
 type open41 struct {
@@ -287,13 +291,13 @@ func (c *client41) createSession(f failer, id uint64, verf byte) nfsv4.Nfsstat4 
 		}
 		c.haveID, c.id, c.idVerf = true, id, verf
 	}
-	c.sessions = append(c.sessions, &session41{id: ok.CsrResok4.CsrSessionid, valid: true})
+	c.sessions = append(c.sessions, &session41{id: ok.CsrResok4.CsrSessionid, valid: true, nocache: w.uncached41})
 	c.renew()
 	return res.Status
 }
 
 func sequenceOp(s *session41, slot uint32, seq uint32) nfsv4.NfsArgop4 {
-	return &nfsv4.NfsArgop4_OP_SEQUENCE{Opsequence: nfsv4.Sequence4args{SaSessionid: s.id, SaSequenceid: seq, SaSlotid: slot, SaHighestSlotid: 1, SaCachethis: true}}
+	return &nfsv4.NfsArgop4_OP_SEQUENCE{Opsequence: nfsv4.Sequence4args{SaSessionid: s.id, SaSequenceid: seq, SaSlotid: slot, SaHighestSlotid: 1, SaCachethis: !s.nocache}}
 }
 
 // sequence sends a SEQUENCE-wrapped compound on slot 0 of the latest
@@ -336,7 +340,15 @@ func (c *client41) sequenceOn(f failer, slot uint32, what string, ops ...nfsv4.N
 		before := w.snapshot()
 		res2 := w.compound(1, what+"(retransmitted)", build(next)...)
 		if !bytes.Equal(encodeRes(res), encodeRes(res2)) {
-			f.FailP("C19", "retransmission-different-reply/SEQUENCE", "retransmitted %s: first reply status %d (%d results), second reply status %d (%d results), XDR bytes differ", what, res.Status, len(res.Resarray), res2.Status, len(res2.Resarray))
+			// A request sent with sa_cachethis=false that is
+			// retransmitted AFTER the original completed may be
+			// answered NFS4ERR_RETRY_UNCACHED_REP instead of the
+			// original reply (RFC 8881, section 2.10.6.1.3): the
+			// server still recognises it as a retransmission and
+			// does not execute it again (checked below).
+			if !(s.nocache && res2.Status == nfsv4.NFS4ERR_RETRY_UNCACHED_REP) {
+				f.FailP("C19", "retransmission-different-reply/SEQUENCE", "retransmitted %s (sa_cachethis=%v): first reply status %d (%d results), second reply status %d (%d results), XDR bytes differ", what, !s.nocache, res.Status, len(res.Resarray), res2.Status, len(res2.Resarray))
+			}
 		}
 		// Same slot and number, different content.
 		// (once with the same number of operations, once with more)
